@@ -104,7 +104,7 @@ def r_link(prog, tier):
         for e in evs:
             if e.kind == 'OTHER':
                 obs.append(Ob('R-LINK/L0', f.fq, 'children lists are changed only by append/insert/remove/'
-                              'assignment', False, 'unmodelled structural mutation `%s`' % unparse(e.ast),
+                              'assignment', None, 'unmodelled structural mutation `%s`' % unparse(e.ast),
                               construct='other:' + unparse(e.ast), line=cfg.nodes[e.node].lineno))
         # L1: every ATT(Q,X) is paired with PAR(X,Q)
         for a in atts:
@@ -924,7 +924,7 @@ def r_root(prog, tier):
         r = _RootFlow(prog, f, preserving).returns()
         for (p, kind, txt) in r:
             node = f.cfg.nodes[p]
-            ok = kind == 'ROOT'
+            ok = True if kind == 'ROOT' else (None if kind == 'OTHER' else False)
             detail = 'typestate of the returned value: ' + kind
             if kind == 'ROOT':
                 detail = 'the returned name is the first parameter, rebound only through root-preserving ' \
@@ -1098,7 +1098,7 @@ def r_frame(prog, tier):
                               construct='dataall:' + text, line=line))
                 continue
             if keys is None:
-                obs.append(Ob('R-FRAME', f.fq, 'data keys written are statically known', False,
+                obs.append(Ob('R-FRAME', f.fq, 'data keys written are statically known', None,
                               'computed key in `%s` (%s)' % (text, where), construct='key?:' + text, line=line))
                 continue
             for k in keys:
@@ -1236,12 +1236,42 @@ def r_stale(prog, tier):
                 continue
             tgt = e.q if e.kind == 'ATT' else e.p
             stale = _stale_parent_read(prog, f, tgt, e.node, loops)
+            if stale and not _parent_can_change(prog, f, evs, tgt, e.node, loops):
+                stale = None
             obs.append(Ob('R-STALE', f.fq,
                           '%s `%s`: the parent it works on is read in the moving iteration'
                           % ('attach' if e.kind == 'ATT' else 'detach', unparse(e.ast)), stale is None,
                           'read inside the loop / not derived from a .parent read' if stale is None else stale,
                           construct='stale:' + unparse(e.ast), line=cfg.nodes[e.node].lineno))
     return obs, {}
+
+
+def _parent_can_change(prog, f, evs, e, at, loops, depth=0):
+    """The `.parent` value `e` derives from was read from a node N before the loop.  Can the loop change N.parent?
+    Only if N is an element of a collection (any of its elements may be moved) or some PAR event inside the loop
+    re-parents N itself.  A fixed node (a parameter, a local bound once outside the loop) that the loop never
+    re-parents keeps its parent."""
+    cfg = f.cfg
+    outer = loops[0]
+    # find the defining read  X = <base>.parent
+    if isinstance(e, ast.Name):
+        for (n, v) in name_defs(f, e.id):
+            if isinstance(v, ast.AST) and outer not in cfg.nodes[n].loops:
+                for s_ in ast.walk(v):
+                    if isinstance(s_, ast.Attribute) and s_.attr == 'parent':
+                        base = s_.value
+                        if not isinstance(base, ast.Name):
+                            return True
+                        bdefs = name_defs(f, base.id)
+                        if any(isinstance(bv, tuple) for (_, bv) in bdefs):
+                            return True         # a loop / unpacked element
+                        if any(isinstance(bv, ast.AST) and isinstance(bv, ast.Subscript) for (_, bv) in bdefs):
+                            return True         # an element picked out of a list
+                        for p_ in evs:
+                            if p_.kind == 'PAR' and outer in cfg.nodes[p_.node].loops and path(p_.x) == base.id:
+                                return True
+                        return False
+    return True
 
 
 def _stale_parent_read(prog, f, e, at, loops, depth=0):
